@@ -127,7 +127,29 @@ def _c09_viol(res):
             for r in res["builder"]["verdicts"] if r["bad"]]
 
 
+def _c08_viol(res):
+    v = [dict(stage="codegen", id=r["id"], what=[list(b)[:4] for b in r["bad"]][:4], kind="codegen")
+         for r in res["codegen"]["verdicts"] if r["bad"]]
+    return v
+
+
+def _c10_viol(res):
+    return [dict(stage="ast", id=r["id"], what=[list(b)[:3] for b in r["bad"]][:3], kind="ast", input=r["input"])
+            for r in res["ast"]["verdicts"] if r["bad"]]
+
+
+def _c11_viol(res):
+    v = [dict(stage="ast", id=r["id"], what=r["what"], kind="rustc") for r in res["ast"]["c11"]]
+    for r in res["codegen"]["rustc"]:
+        v.append(dict(stage="codegen", id=r["id"], what=[["rustc_rejects_generated_code", e["file"], e["code"], e["msg"][:120]]
+                                                          for e in r["errs"][:3]], kind="rustc"))
+    return v
+
+
 PROPS = {
+    "C10": dict(stages=["ast"], viol=_c10_viol),
+    "C11": dict(stages=["ast", "codegen"], viol=_c11_viol, level="exploration"),
+    "C08": dict(stages=["codegen"], viol=_c08_viol),
     "C09": dict(stages=["builder"], viol=_c09_viol),
     "C17": dict(stages=["determinism"], viol=_c17_viol),
     "C18": dict(stages=["regen"], viol=_c18_viol),
@@ -210,6 +232,8 @@ def check(work, prop, tier, seed, t0):
         payload = ctx.replay_payload(prop, v)
         if "events" in v:
             payload["events"] = v["events"]
+        if "input" in v:
+            payload["input"] = v["input"]
         key = json.dumps([v.get("kind"), sorted(w[0] for w in v["what"] if w), payload.get("grammar")], sort_keys=True)
         if key in seen and nviol >= 20:
             continue
@@ -225,7 +249,21 @@ def check(work, prop, tier, seed, t0):
     for st in spec["stages"]:
         for dline in res[st].get("divergences", [])[:3]:
             run.log("DIVERGENCE (%s): %s" % (st, dline))
-    run.write_evidence(prop, tier, seed, "model_checking", cov, time.time() - t0, len(fresh),
+    level = spec.get("level", "model_checking")
+    if level == "exploration":
+        a = res["ast"]
+        cov["evaluations"] = a["ncases"] + res["codegen"]["ncases"]
+        cov["distinct_nontrivial"] = a["ngenerated"] + res["codegen"]["programs"]
+        cov["rule"] = ("one instance per (grammar shape, settings combination); the shape list enumerates what type "
+                       "inference distinguishes (enum/struct/ref/vec/optional, recursion, nullable tails, unreachable "
+                       "rules, name collisions, keywords as field names); an instance is non-trivial when the compiler "
+                       "accepted it and rustc compiled the generated parser (and actions) in the scratch crate; "
+                       "distinct = distinct (shape, settings) pairs")
+        cov["explanation"] = "TLA+ does not model Rust's type checker: the specification side contributes the enumeration and the compiler-accepts predicate, rustc is the oracle"
+    if prop == "C08":
+        cov["programs"] = res["codegen"]["programs"]
+        cov["disagreements_checked"] = res["codegen"]["nqueries"]
+    run.write_evidence(prop, tier, seed, level, cov, time.time() - t0, len(fresh),
                        [LEVEL_NOTE,
                         "terminal sets of generated grammars are lexically unambiguous, so token-level oracles are exact",
                         "bounds: see coverage.bounds"])
